@@ -4,7 +4,7 @@
 //! (3) the serde-generated codecs and the float helpers that Verus cannot reach.
 #![allow(dead_code)]
 use crate::member::{Member, State, ConflictResult, Members};
-use crate::Identity;
+use crate::{Identity, Invalidates};
 
 fn any_state() -> State {
     match kani::any::<u8>() % 3 {
@@ -399,7 +399,7 @@ struct KKey {
     k: u8,
     wide: bool,
 }
-impl crate::Invalidates for KKey {
+impl Invalidates for KKey {
     // same key, or a "wide" key that invalidates every other key (one-to-many)
     fn invalidates(&self, other: &Self) -> bool {
         self.k == other.k || self.wide
